@@ -581,8 +581,10 @@ func TestC08Random(t *testing.T) {
 	defer clearJournal("random")
 	rapidCheck(t, col, func(rt *rapid.T) {
 		c := &CrashCase{Prop: "C08", Kind: "random"}
-		kind := rapid.SampledFrom([]string{"bytes", "soup", "mutation", "mutation", "program", "program", "object"}).Draw(rt, "kind")
+		kind := rapid.SampledFrom([]string{"bytes", "soup", "mutation", "mutation", "program", "program", "object", "transplanted"}).Draw(rt, "kind")
 		switch kind {
+		case "transplanted":
+			c.Script = drawTransplanted(rt)
 		case "bytes":
 			b := rapid.SliceOfN(rapid.Byte(), 0, 80).Draw(rt, "bytes")
 			c.Script = fmt.Sprintf("%x", b)
